@@ -76,5 +76,29 @@ func runMultiSite(env *cliEnv, c J, emit func(J)) {
 		}
 		ev["outs"] = list
 	}
+	// the same record twice in one stream: every record must be treated like the first one
+	ev["status2"] = -1
+	ev["outs2"] = []interface{}{}
+	if res.status == 0 && asStr(c["cmd"]) != "infix" {
+		in2 := "in2-" + id
+		ioutil.WriteFile(filepath.Join(env.inputs, in2), []byte(text+text), 0644)
+		defer os.Remove(filepath.Join(env.inputs, in2))
+		res2 := env.run(dir, asStr(c["cmd"]), args, in2, "stdout", true, 1)
+		ev["status2"] = res2.status
+		if res2.status == 0 {
+			outs2, oerrs2, op2 := scanAll(string(res2.out))
+			list2 := make([]interface{}, 0, len(outs2))
+			if op2 == nil && oerrs2 == "" {
+				for _, o := range outs2 {
+					st, operr := observeSafe(o, false)
+					if operr != nil {
+						break
+					}
+					list2 = append(list2, st)
+				}
+			}
+			ev["outs2"] = list2
+		}
+	}
 	emit(ev)
 }
